@@ -293,7 +293,15 @@ impl IndexFooter {
     pub fn is_valid(&self) -> bool {
         let expected = self.calculate_footer_hash();
         let actual_len = self.footer_hash.len().min(self.footer_hash_bytes as usize);
-        self.footer_hash[..actual_len] == expected[..actual_len]
+        // `footer_hash_bytes` comes from the file and may exceed the 8 bytes
+        // that `calculate_footer_hash` produces; such a footer is not valid.
+        match (
+            self.footer_hash.get(..actual_len),
+            expected.get(..actual_len),
+        ) {
+            (Some(actual), Some(expected)) => actual == expected,
+            _ => false,
+        }
     }
 
     /// Write footer to writer
@@ -482,7 +490,10 @@ impl ArchiveIndex {
             let mut actual_arr = [0u8; 8];
             let copy_len = expected_hash.len().min(8);
             expected_arr[..copy_len].copy_from_slice(&expected_hash[..copy_len]);
-            actual_arr[..copy_len].copy_from_slice(&footer.footer_hash[..copy_len]);
+            // The stored hash can be shorter than 8 bytes when the hash-size
+            // byte of a corrupt footer is smaller
+            let actual_len = footer.footer_hash.len().min(8);
+            actual_arr[..actual_len].copy_from_slice(&footer.footer_hash[..actual_len]);
             return Err(ArchiveError::ChecksumMismatch {
                 expected: expected_arr,
                 actual: actual_arr,
@@ -1156,7 +1167,10 @@ impl ChunkedArchiveIndex {
             let mut actual_arr = [0u8; 8];
             let copy_len = expected_hash.len().min(8);
             expected_arr[..copy_len].copy_from_slice(&expected_hash[..copy_len]);
-            actual_arr[..copy_len].copy_from_slice(&footer.footer_hash[..copy_len]);
+            // The stored hash can be shorter than 8 bytes when the hash-size
+            // byte of a corrupt footer is smaller
+            let actual_len = footer.footer_hash.len().min(8);
+            actual_arr[..actual_len].copy_from_slice(&footer.footer_hash[..actual_len]);
             return Err(ArchiveError::ChecksumMismatch {
                 expected: expected_arr,
                 actual: actual_arr,
